@@ -105,6 +105,7 @@ def runBatch (s : Shard) (b : Batch) : Shard × List Nat :=
 
 /-- `CompactionWorker::run`: plan from the index, run the batches, reclaim drained directories. -/
 def compactRound (s : Shard) : Shard :=
+  let s := loadIndex s
   let plans := planAll s.kmerge s.index
   let (s, drained) := (groupPlans plans).foldl (fun (acc : Shard × List Nat) b =>
     let (s', d) := runBatch acc.1 b
